@@ -323,6 +323,7 @@ Definition boxed_div_rem (x y : list Z) : option (list Z * list Z) :=
   if negb (length x =? length y)%nat then None else uint_div_rem x y.
 
 Definition ops_div_model : list (string * opfn) := [
+  ("recip.new", fun _ a => let rc := recip_new (sarg 0 a) in Val [[r_d rc]; [r_shift rc]; [r_v rc]]);
   ("uint.div_rem_limb", fun _ a => let '(q, r) := div_rem_limb_with_reciprocal (arg 0 a) (recip_new (sarg 1 a)) in Val [q; [r]]);
   ("uint.rem_limb", fun _ a => Val [[rem_limb_with_reciprocal (arg 0 a) (recip_new (sarg 1 a))]]);
   ("uint.div_limb", fun _ a => Val [fst (div_rem_limb_with_reciprocal (arg 0 a) (recip_new (sarg 1 a)))]);
@@ -359,6 +360,12 @@ Definition sp_qr (nq nr : nat) (a : list (list Z)) : outcome := spec_div_rem nq 
 Definition nz_dom (a : list (list Z)) (o : outcome) : outcome := if ev 1 a =? 0 then Unsupported else o.
 
 Definition ops_div_spec : list (string * opfn) := [
+  (* recip_ok: the reciprocal of the normalised divisor is floor((B^2 - 1) / d) - B *)
+  ("recip.new", fun _ a =>
+     let d := sarg 0 a in
+     if d <=? 0 then Unsupported else
+     let s := 63 - Z.log2 d in let dn := d * 2 ^ s in
+     Val [[dn]; [s]; [(B * B - 1) / dn - B]]);
   ("uint.div_rem_limb", fun _ a => nz_dom a (sp_qr (ln 0 a) 1 a));
   ("uint.rem_limb", fun _ a => nz_dom a (sp_r 1 a));
   ("uint.div_limb", fun _ a => nz_dom a (sp_q (ln 0 a) a));
